@@ -8,7 +8,8 @@
 (* rule with its scenarios.  Every attempt follows the canonical sequence  *)
 (* (C02) with a nondeterministic outcome per hook and step:                *)
 (*   Started, [HookS b, HookP b | HookF b], per step StepS then one of     *)
-(*   StepP / StepSk / StepF(panic) / StepF(notfound) -- the last one only  *)
+(*   StepP / StepSk / StepF(panic) / StepF(ambig, if Ambig) /              *)
+(*   StepF(notfound) -- the last one only                                  *)
 (*   if NotFoundToo (a stream seen behind FailOnSkipped) --,               *)
 (*   [HookS a, HookP a | HookF a], Finished.                               *)
 (* A runner-failed attempt (HookF or StepF other than notfound) with       *)
@@ -20,6 +21,7 @@
 EXTENDS Univ
 
 CONSTANTS HasBefore, HasAfter, NotFoundToo, MaxErr, Truncate, Replay,
+          Ambig, \* TRUE: a step may also fail as ambiguous (several definitions match)
           Logs   \* TRUE: a running step or hook may emit one Scenario::Log event (tracing integration)
 
 VARIABLES gpc,    \* "pre" | "feat" | "att" | "post" | "replay" | "end"
@@ -132,6 +134,7 @@ GAtt ==
             \/ Emit(SEv("StepSk", "", att.i, "")) /\ stay("post", att.i, att.failedR)
             \/ Emit(SEv("StepF", "", att.i, "panic")) /\ stay("post", att.i, TRUE)
             \/ NotFoundToo /\ Emit(SEv("StepF", "", att.i, "notfound")) /\ stay("post", att.i, att.failedR)
+            \/ Ambig /\ Emit(SEv("StepF", "", att.i, "ambig")) /\ stay("post", att.i, TRUE)
             \/ logNow
        [] pcNow = "post" /\ HasAfter -> Emit(SEv("HookS", "a", 0, "")) /\ stay("Ha", att.i, att.failedR)
        [] pcNow = "Ha" ->
